@@ -3656,6 +3656,7 @@ AnalyserExternalVariablePtrs::const_iterator Analyser::AnalyserImpl::findExterna
         auto component = (variable != nullptr) ? owningComponent(variable) : nullptr;
 
         return (component != nullptr)
+               && (model != nullptr)
                && (owningModel(variable) == model)
                && (component->name() == componentName)
                && (variable->name() == variableName);
